@@ -598,6 +598,28 @@ def oracle_roll(case, R):
         R.check(np.array_equal(sh_c, sh) and np.array_equal(resp_c["hist"], resp["hist"]) and resp_c["sr"] == resp["sr"],
                 "string_vs_callable_roll", f"roll={roll}")
 
+    # ---- packaging / column independence with the roll-off active: each signal is resampled on its own, so a
+    # column of a multi-column call equals the 1-D call of that column (mean removal, filter state and windows
+    # of the resamplers must not mix columns); round-off differences between 1-D and 2-D FFT / mean paths only
+    if H >= 2:
+        hs_ = np.asarray(resp["hist"])
+        tolp = 1e-9
+        for hcol in range(H):
+            s1d, r1d = call_srs(srs, sig[:, hcol].copy(), sr, freqs, Q, rolloff=roll, getresp=True, **kw)
+            h1 = np.asarray(r1d["hist"])
+            if h1.shape != (hs_.shape[0], 1, LF):
+                R.fail("roll_packaging_1d_shape", f"{h1.shape} vs {(hs_.shape[0], 1, LF)}")
+                continue
+            sc_ = max(np.abs(hs_[:, hcol]).max(), np.abs(sig[:, hcol]).max() * 1e-3, 1e-300)
+            e_ = np.abs(h1[:, 0] - hs_[:, hcol]).max() / sc_
+            _m(R, "roll_packaging/1e-9", e_ / tolp)
+            R.check(e_ <= tolp, "roll_packaging_1d_hist", f"roll={roll} col {hcol}: rel diff {e_:.3g}")
+            shc_ = np.asarray(sh).reshape(LF, H)[:, hcol]
+            scs_ = max(np.abs(shc_).max(), sc_)
+            R.check(np.abs(np.asarray(s1d).reshape(-1) - shc_).max() <= tolp * scs_ * 10, "roll_packaging_1d_sh",
+                    f"roll={roll} col {hcol}")
+        R.label("roll_packaging_checked")
+
     # ---- candidates for the (undocumented) order of ic processing and roll-off
     s1_raw = sig[0].copy()
     cands = []
